@@ -3,6 +3,7 @@ package main
 import (
 	"fmt"
 	"go/token"
+	"strings"
 
 	"golang.org/x/tools/go/ssa"
 )
@@ -73,8 +74,20 @@ func checkProvenance(c *Ctx, fn *ssa.Function) {
 			}
 		}
 	}
+	// … or hands it to a module function that evaluates / collects it
+	for _, ref := range *node.Referrers() {
+		if call, ok := ref.(*ssa.Call); ok && call.Call.StaticCallee() != nil && call.Call.StaticCallee().Blocks != nil {
+			if strings.HasPrefix(funcKey(call.Call.StaticCallee()), "yqlib.") && !strings.HasPrefix(call.Call.StaticCallee().Name(), "Set") {
+				for _, a := range call.Call.Args {
+					if a == node {
+						consumers = append(consumers, call)
+					}
+				}
+			}
+		}
+	}
 	if len(consumers) == 0 {
-		r.Fatal("anchor moved: decoded node is not pushed onto a list in %s", funcKey(fn))
+		r.Fatal("anchor moved: decoded node is neither pushed onto a list nor handed to an evaluation helper in %s", funcKey(fn))
 		return
 	}
 	fields := map[string]func(v ssa.Value) (bool, string){
@@ -234,6 +247,44 @@ func checkFileCounter(c *Ctx, fn *ssa.Function) {
 // checkS2: context built inside the iteration; one PrintResults per evaluation.
 func checkS2(c *Ctx, fn *ssa.Function) {
 	r := c.R
+	// the evaluation may sit in the loop itself or in a helper the loop hands the decoded node to
+	hasEval := func(f *ssa.Function) bool {
+		found := false
+		eachInstr(f, func(ins ssa.Instruction) {
+			if call, ok := ins.(*ssa.Call); ok && call.Call.IsInvoke() && call.Call.Method.Name() == "GetMatchingNodes" {
+				found = true
+			}
+		})
+		return found
+	}
+	if hasEval(fn) {
+		checkS2In(c, funcKey(fn), fn, true)
+		return
+	}
+	var helperCall *ssa.Call
+	eachInstr(fn, func(ins ssa.Instruction) {
+		if call, ok := ins.(*ssa.Call); ok && call.Call.StaticCallee() != nil && call.Call.StaticCallee().Blocks != nil && hasEval(call.Call.StaticCallee()) {
+			helperCall = call
+		}
+	})
+	if helperCall == nil {
+		r.Fatal("anchor moved: no evaluation (GetMatchingNodes) in %s or in a helper it calls", funcKey(fn))
+		return
+	}
+	checkS2In(c, funcKey(fn), helperCall.Call.StaticCallee(), false)
+	key := funcKey(fn) + "/error-stops " + helperCall.Call.StaticCallee().Name()
+	if errorReachesReturn(helperCall, 0) {
+		r.Discharge("S2", key, c.P.pos(helperCall.Pos()), "the helper's error is returned")
+	} else {
+		r.Finding("S2", key, c.P.pos(helperCall.Pos()), "the error of the per-document evaluation does not reach a return: processing continues after a failed document")
+	}
+}
+
+// checkS2In analyses the function that holds the evaluation of one document.
+// needDecode: the function is the loop itself (the fresh list must be created after Decode);
+// otherwise it is a helper called once per document (everything it creates is per document).
+func checkS2In(c *Ctx, keyFn string, fn *ssa.Function, needDecode bool) {
+	r := c.R
 	var decode, gm *ssa.Call
 	var prints []*ssa.Call
 	eachInstr(fn, func(ins ssa.Instruction) {
@@ -250,7 +301,7 @@ func checkS2(c *Ctx, fn *ssa.Function) {
 			prints = append(prints, call)
 		}
 	})
-	if decode == nil || gm == nil {
+	if gm == nil || (needDecode && decode == nil) {
 		r.Fatal("anchor moved: Decode/GetMatchingNodes not found in %s", funcKey(fn))
 		return
 	}
@@ -276,16 +327,16 @@ func checkS2(c *Ctx, fn *ssa.Function) {
 				}
 			}
 		case *ssa.Call:
-			if calleeName(&x.Call) == "container/list.New" && decode.Block().Dominates(x.Block()) {
+			if calleeName(&x.Call) == "container/list.New" && (decode == nil || decode.Block().Dominates(x.Block())) {
 				fresh = true
 			}
 		}
 	}
 	walk(ctxArg, 0)
 	if fresh {
-		r.Discharge("S2", funcKey(fn)+"/fresh-context", c.P.pos(gm.Pos()), "evaluation context is a literal over a list created inside the iteration (after Decode)")
+		r.Discharge("S2", keyFn+"/fresh-context", c.P.pos(gm.Pos()), "evaluation context is a literal over a list created inside the iteration (after Decode)")
 	} else {
-		r.Finding("S2", funcKey(fn)+"/fresh-context", c.P.pos(gm.Pos()), "evaluation context is not built from a list created in this iteration: results of document k can depend on earlier documents")
+		r.Finding("S2", keyFn+"/fresh-context", c.P.pos(gm.Pos()), "evaluation context is not built from a list created in this iteration: results of document k can depend on earlier documents")
 	}
 	// variables map etc. must not be carried: no other field of the context literal is set from a loop phi
 	if len(prints) == 1 && gm.Block().Dominates(prints[0].Block()) {
@@ -317,16 +368,16 @@ func checkS2(c *Ctx, fn *ssa.Function) {
 		}
 		w2(prints[0].Call.Args[0], 0)
 		if from {
-			r.Discharge("S2", funcKey(fn)+"/print-once", c.P.pos(prints[0].Pos()), "exactly one PrintResults per iteration, on the result of this iteration's evaluation")
+			r.Discharge("S2", keyFn+"/print-once", c.P.pos(prints[0].Pos()), "exactly one PrintResults per iteration, on the result of this iteration's evaluation")
 		} else {
-			r.Finding("S2", funcKey(fn)+"/print-once", c.P.pos(prints[0].Pos()), "PrintResults does not print this iteration's evaluation result")
+			r.Finding("S2", keyFn+"/print-once", c.P.pos(prints[0].Pos()), "PrintResults does not print this iteration's evaluation result")
 		}
 	} else {
-		r.Finding("S2", funcKey(fn)+"/print-once", c.P.pos(gm.Pos()), fmt.Sprintf("expected exactly one PrintResults call after the evaluation, found %d", len(prints)))
+		r.Finding("S2", keyFn+"/print-once", c.P.pos(gm.Pos()), fmt.Sprintf("expected exactly one PrintResults call after the evaluation, found %d", len(prints)))
 	}
 	// a failed print / evaluation ends the run (no `continue` past an error)
 	for _, call := range append([]*ssa.Call{gm}, prints...) {
-		key := funcKey(fn) + "/error-stops " + call.Call.Method.Name()
+		key := keyFn + "/error-stops " + call.Call.Method.Name()
 		if errorReachesReturn(call, 0) {
 			r.Discharge("S2", key, c.P.pos(call.Pos()), "its error is returned")
 		} else {
